@@ -38,7 +38,10 @@ func Sites(root *Node) []Site {
 	return out
 }
 
-var EditOps = []string{"del", "dup", "empty"}
+var EditOps = []string{"del", "dup", "empty", "evil"}
+
+// EvilValue is what the "evil" edit puts into an attribute value or an element's text.
+const EvilValue = "a'b[c]\"d%s%n{{.}}//*[@x='y']\\e"
 
 // ApplyEdits clones root and applies the edits (sites refer to the original tree's numbering).
 // It returns nil when an edit would remove the document element.
@@ -86,6 +89,8 @@ func ApplyEdits(root *Node, edits []Edit) (*Node, []string) {
 				t.elem.Attrs = append(t.elem.Attrs, t.elem.Attrs[idx])
 			case "empty":
 				t.elem.Attrs[idx].Value = ""
+			case "evil":
+				t.elem.Attrs[idx].Value = EvilValue
 			}
 		default:
 			p := t.elem.Parent
@@ -107,6 +112,17 @@ func ApplyEdits(root *Node, edits []Edit) (*Node, []string) {
 				}
 			case "empty":
 				t.elem.Children = nil
+			case "evil":
+				// only leaf elements get hostile text; structure stays
+				leaf := true
+				for _, ch := range t.elem.Children {
+					if ch.Kind == KindElem {
+						leaf = false
+					}
+				}
+				if leaf {
+					t.elem.Children = []*Child{{Kind: KindText, Text: EvilValue}}
+				}
 			}
 		}
 	}
